@@ -449,7 +449,6 @@ func configWatchHistory() {
 	stat("watch-histories")
 }
 
-
 var fieldPools = map[string][]string{
 	"name": {"", "a", "c1", "exactly-twenty-chars", "twenty-one-characters", strings.Repeat("n", 19), strings.Repeat("n", 25),
 		strings.Repeat("\u65e5", 20), strings.Repeat("\u65e5", 21), strings.Repeat("\u00e9", 20) + "x", "caf\u00e9", "a b", "$HOME", " lead", "x\ty"},
